@@ -557,5 +557,48 @@ func c13ProfileHistories(c *mon.Ctx) {
 	check("after the THIRD registration of the same profile name")
 	reg("verif_src_"+strings.ToLower(string(lint.MozillaRootStorePolicy)), append([]string{}, names...))
 	check("after re-registering a per-source profile with every name")
+	// options stacked from profiles: two separate FilterOptions values each take the same base profile first (its
+	// name list built by append, so it has spare capacity) and then a different second profile; the first options
+	// value, left untouched, must still select base + its own second profile after the other one was built, and the
+	// registered profiles must still name what they were registered with
+	base := make([]string, 0, 64)
+	base = append(base, names[10], names[20], names[30])
+	reg("verif_stack_base", base)
+	reg("verif_stack_p2", []string{names[40], names[41]})
+	reg("verif_stack_p3", []string{names[50], names[51], names[52]})
+	pb, okb := lint.GetProfile("verif_stack_base")
+	p2, ok2 := lint.GetProfile("verif_stack_p2")
+	p3, ok3 := lint.GetProfile("verif_stack_p3")
+	if okb && ok2 && ok3 {
+		sel := func(o lint.FilterOptions) string {
+			r, err := g.Filter(o)
+			if err != nil {
+				return "error: " + err.Error()
+			}
+			return strings.Join(r.Names(), ",")
+		}
+		var oA lint.FilterOptions
+		oA.AddProfile(pb)
+		oA.AddProfile(p2)
+		first := sel(oA)
+		wantA := []string{names[10], names[20], names[30], names[40], names[41]}
+		sort.Strings(wantA)
+		if first != strings.Join(wantA, ",") {
+			c.V("profile-options|stacked", fmt.Sprintf("options built from profiles base + p2 select %q, want %q", clipS(first, 200), strings.Join(wantA, ",")), "", nil, nil)
+		}
+		var oB lint.FilterOptions
+		oB.AddProfile(pb)
+		oB.AddProfile(p3)
+		_ = sel(oB)
+		if again := sel(oA); again != first {
+			c.V("profile-options|earlier-options-changed", fmt.Sprintf("an options value built from profiles base + p2 selects %q after ANOTHER options value was built from base + p3 (before: %q)", clipS(again, 200), clipS(first, 200)), "", nil, nil)
+		}
+		if pb2, _ := lint.GetProfile("verif_stack_base"); strings.Join(pb2.LintNames, ",") != strings.Join([]string{names[10], names[20], names[30]}, ",") {
+			c.V("profile-options|profile-changed", fmt.Sprintf("the registered profile verif_stack_base now names %v", pb2.LintNames), "", nil, nil)
+		}
+		c.R.Count("evaluations", 3)
+		c.R.Count("profile_history_checks", 3)
+	}
+	check("after options were stacked from profiles")
 	c.R.Distinct("profiles_checked", "profile histories (registered by the harness)")
 }
